@@ -387,6 +387,12 @@ Definition hps_post (x : ctx) (met : call_result cid) (r : xres) (sd : state_des
       x_next_peers y = x_next_peers x /\
       (tr y = tr x \/ exists c, tr y = tr x ++ [SCall c] /\ not_sent c)).
 
+(* a branch that either panics or returns an error with the context unchanged *)
+Ltac same_err E Hy :=
+  inversion E; subst;
+  first [ discriminate
+        | cbn [outcome_ctx] in Hy; inversion Hy; subst; right; left; repeat split; left; reflexivity ].
+
 Lemma handle_prev_state_spec x met pos src t ah out r sd y :
   handle_prev_state x met pos src t ah out = (r, sd) -> outcome_ctx r = Some y -> hps_post x met r sd y.
 Proof.
@@ -403,7 +409,7 @@ Proof.
     + destruct (String.eqb p (current_peer x)) eqn:Ep.
       * apply String.eqb_eq in Ep. subst p.
         destruct (results_take (x_call_results x) id) as [[ans|] rest] eqn:Et.
-        -- destruct ah as [ah|]; intros E Hy; inversion E; subst; [| discriminate].
+        -- destruct ah as [ah|]; intros E Hy; [inversion E; subst | same_err E Hy].
            right. right. split; [reflexivity |]. exists id, ans.
            pose proof (update_state_with_service_result_spec _ _ _ _ _ _ Hy) as [F Ht].
            destruct F as (F1 & F2 & F3 & F4 & F5). cbn in F1, F2, F3, F4, F5.
@@ -412,7 +418,7 @@ Proof.
         -- intros E Hy. inversion E; subst. cbn [outcome_ctx] in Hy. inversion Hy; subst.
            left. eexists; repeat split.
       * intros E Hy. left. apply (Hother _ _ _ E Hy).
-  - destruct ah as [ah|]; [| intros E Hy; inversion E; subst; discriminate].
+  - destruct ah as [ah|]; [| intros E Hy; same_err E Hy].
     destruct (populate_from_data x v ah t pos src out) as [c0 | e0 | s0 | w0] eqn:Ed; intros E Hy; inversion E; subst;
       cbn [outcome_ctx] in Hy; inversion Hy; subst; right; left; (split; [reflexivity |]).
     + pose proof (hsame_populate_from_data _ _ _ _ _ _ _ _ Ed) as H1.
@@ -425,7 +431,7 @@ Proof.
       [| intros E Hy; inversion E; subst; cbn [outcome_ctx] in Hy; inversion Hy; subst;
          right; left; repeat split; left; reflexivity
        | intros E Hy; inversion E; subst; discriminate | intros E Hy; inversion E; subst; discriminate].
-    destruct ah as [ah|]; [| intros E Hy; inversion E; subst; discriminate].
+    destruct ah as [ah|]; [| intros E Hy; same_err E Hy].
     assert (Hx : forall (e : exec_err) r sd y, (XErr e x, SD false None) = (r, sd) -> outcome_ctx r = Some y ->
                   sd = SD false None /\ frame x y /\ (tr y = tr x \/ tr y = tr x ++ [SCall (Failed fc)])).
     { intros e r0 sd0 y0 E Hy. inversion E; subst. cbn [outcome_ctx] in Hy. inversion Hy; subst.
